@@ -28,7 +28,11 @@ def pkg_of(path):
 def clean():
     sh("git reset -q --hard ; git clean -fdq crates")
 
+FEATURES = {"aranya-fast-channels": "posix", "aranya-crypto": "fs-keystore,memstore,std"}
+
 def run_tests(pkgs, extra=""):
+    if len(pkgs) == 1 and pkgs[0] in FEATURES:
+        extra = f"--features {FEATURES[pkgs[0]]} " + extra
     code, out = sh("nice -n 10 cargo nextest run --offline --no-fail-fast " + " ".join(f"-p {p}" for p in pkgs) + " " + extra)
     fails = sorted(set(re.findall(r"^\s+FAIL \[[^\]]*\] \(\s*\d+/\d+\) (\S+ \S+)", out, re.M)))
     summ = re.findall(r"Summary \[[^\]]*\] (.*)", out)
